@@ -1,0 +1,8 @@
+//go:build verif
+
+package scheduler
+
+import "time"
+
+// VerifSetPause sets the polling pause of the scheduler loop (verification hook, build tag "verif").
+func (s *Scheduler) VerifSetPause(d time.Duration) { s.pause = d }
